@@ -223,8 +223,17 @@ func (p *parser) unary() Expr {
 				p.fail("quantifier variable expected")
 			}
 			qv := QVar{Name: v.text}
-			if p.peek().kind == "ident" {
-				qv.Sort = p.next().text
+			if p.peek().kind == "ident" || p.isOp("*") {
+				// sort name or Go type: [*]name[.name]
+				if p.isOp("*") {
+					p.next()
+					qv.Sort = "*"
+				}
+				qv.Sort += p.next().text
+				if p.isOp(".") {
+					p.next()
+					qv.Sort += "." + p.next().text
+				}
 			}
 			vars = append(vars, qv)
 			if p.isOp(",") {
@@ -404,6 +413,7 @@ type GhostField struct {
 type Lemma struct {
 	Name string
 	C    *Clause
+	Pkg  string
 }
 
 type ContractFile struct {
@@ -623,7 +633,7 @@ func parseContractFile(path string) (*ContractFile, error) {
 			if err != nil {
 				return nil, err
 			}
-			cf.Lemmas = append(cf.Lemmas, &Lemma{strings.TrimSpace(rest[:i]), c})
+			cf.Lemmas = append(cf.Lemmas, &Lemma{Name: strings.TrimSpace(rest[:i]), C: c})
 			cur = nil
 			curSF = nil
 		default:
